@@ -120,13 +120,16 @@ CHECKS = {
         technique="TLC model checking of Vectorise.tla + TLC batch trace validation of the real vectorisePositions, "
                   "blur, toRelativeGenomicPositions, PeaksSelector.selectPeaks, OpticalMap.getSequence (composed entry) and "
                   "CorrelationResult.createPeaks (per-correlation cut); TLC trace validation (Trace_Seeding over Seeding.tla) of "
-                  "the real OpticalMap.getInitialAlignment",
+                  "the real OpticalMap.getInitialAlignment and (Trace_Worker over Worker.tla) of the messages every task "
+                  "dispatches inside the worker",
         text="TLC exhausts the sliding-window state machine (negative starts, ends before the last label, end=0), "
              "blur (all vectors up to length 7, radii 0..3), bin centres (resolutions 1..12) and top-N selection "
              "with ties on small cases against the C16 clauses; the same cases and random large ones go through the "
              "real functions and TLC judges every result. The stage that composes them, getInitialAlignment, is replayed "
              "action by action against Seeding.tla (exact Dice correlation, maxima, height / distance filters, top "
-             "peaksCount): seeds must be bin centres and the kept ones the highest of the candidates.",
+             "peaksCount): seeds must be bin centres and the kept ones the highest of the candidates. The coordinator's "
+             "per-task event log (recorder Extension, per-process sequence numbers) is replayed against Worker.tla: the "
+             "seeds that are refined must be the peaksCount highest primary peaks over all references and strands.",
         design_ref="DESIGN.md section 4 (C16), section 10, 10.13",
         note="The correlation is modelled in exact rational arithmetic (Seeding.tla); where floating point breaks an exact "
              "tie the specification allows either outcome and the logged seeds bind the choice.",
@@ -149,15 +152,18 @@ CHECKS = {
         engine="tlc-pipeline",
         technique="TLC model checking of Pipeline.tla / Worker.tla (filter, resolve, mode dispatch, best-candidate "
                   "choice on abstract rows) + TLC batch validation of the files of the four modes and of the "
-                  "candidates and seed peaks recorded inside the worker",
+                  "candidates and seed peaks recorded inside the worker; TLC trace validation (Trace_Worker) of every "
+                  "message each task dispatched, replayed action by action against Worker.tla",
         text="TLC exhausts filter / resolve / mode dispatch for every set of first- and second-pass rows of two "
              "queries and every join outcome (C05 file clauses), and the worker's peak selection / best-candidate "
              "choice; end to end the four modes run on generated inputs (peaksCount 1,2,3,5; repetitive references), "
              "a harness Extension records candidates and seed peaks inside the worker, and TLC checks one record per "
              "query, ascending ids, best-mode coverage, that a query without a joined record gets in 'best' a record at "
              "least as confident as each of its pass records, that the first-pass record is a maximal candidate and "
-             "that the refined seeds are the top-peaksCount primary peaks.",
-        design_ref="DESIGN.md section 4 (C05), section 10",
+             "that the refined seeds are the top-peaksCount primary peaks. Worker.tla has one action per dispatched message "
+             "(Correlate, Select, Refine, Row, Multi, PickBest); the recorder's per-process event log of every task is "
+             "replayed against it (Trace_Worker) and the returned row must be a most confident candidate.",
+        design_ref="DESIGN.md section 4 (C05), section 10, 10.14",
         note="The correlation that produces the peaks is numerical and not modelled; its outcome is observed.",
     ),
     "C07": dict(
